@@ -25,7 +25,7 @@ use crate::budget::{BudgetEnforcer, EnforcingPolicy};
 use crate::buffered_input::{ChunkedChars, buffered_input_from_reader_with_limit};
 use crate::de::{AliasLimits, Budget, Error, Ev, Events, Location};
 use crate::de_error::budget_error;
-use crate::location::location_from_span;
+use crate::location::location_from_span_in;
 use crate::options::BudgetReportCallback;
 use crate::tags::SfTag;
 use saphyr_parser::{BufferedInput, Event, Parser, ScalarStyle, ScanError, Span, StrInput};
@@ -319,9 +319,10 @@ impl<'a> LiveEvents<'a> {
         }
 
         // 2) Pull from the real parser
+        let input = self.input;
         while let Some(item) = self.parser.next() {
-            let (raw, span) = item.map_err(Error::from_scan_error)?;
-            let location = location_from_span(&span);
+            let (raw, span) = item.map_err(|err| Error::from_scan_error_in(err, input))?;
+            let location = location_from_span_in(&span, input);
 
             if let Some(ref mut budget) = self.budget {
                 // An alias is expanded by replaying the anchored node, whose events are observed
@@ -527,7 +528,7 @@ impl<'a> LiveEvents<'a> {
                         // after an explicit end marker. If the very next token is a
                         // DocumentStart, signal multi-doc error; otherwise ignore anything else.
                         if let Some(Ok((Event::DocumentStart(_), span2))) = self.parser.next() {
-                            let loc2 = location_from_span(&span2);
+                            let loc2 = location_from_span_in(&span2, input);
                             return Err(Error::multiple_documents(
                                 "use from_multiple or from_multiple_with_options",
                             )
@@ -802,7 +803,7 @@ impl<'a> LiveEvents<'a> {
                 // Syntax error while skipping; treat as EOF
                 return false;
             };
-            let location = location_from_span(&span);
+            let location = location_from_span_in(&span, self.input);
             self.last_location = location;
 
             match raw {
